@@ -5,6 +5,7 @@ import (
 	"sort"
 	"testing"
 	"time"
+	"verifharness/internal/hook"
 
 	"pgregory.net/rapid"
 	"verifharness/internal/et"
@@ -24,7 +25,8 @@ type Case struct {
 	Events []et.Event `json:"events"`
 	Pauses []int      `json:"pauses"`
 	// processing time: gaps (µs) between emits
-	GapsUs []int `json:"gaps_us,omitempty"`
+	GapsUs   []int  `json:"gaps_us,omitempty"`
+	HookSeed uint64 `json:"hook_seed,omitempty"` // seed of the engine's build-tag-guarded perturbation points (0 = off)
 }
 
 func genCase(t *rapid.T) Case {
@@ -48,6 +50,7 @@ func genCase(t *rapid.T) Case {
 	c.TsKind = rapid.SampledFrom([]string{"int", "int64", "float64"}).Draw(t, "tskind")
 	c.Events = et.GenTimeline(t, et.TLParams{SizeMs: c.SizeMs, OOOMs: c.OOOMs, UnitMs: unitMs, Groups: c.Groups, MaxN: 40,
 		PreFirst: !pbt.Open("C01", "pre-first")})
+	c.HookSeed = hookSeed(t)
 	for range c.Events {
 		c.Pauses = append(c.Pauses, gen.Pause().Draw(t, "pause"))
 	}
@@ -134,6 +137,13 @@ func checkRows(c Case, ds []run.Delivery, byID map[int]et.Event, res *pbt.Result
 }
 
 func runEvent(c Case) (res pbt.Result) {
+	hook.Configure(c.HookSeed)
+	defer func() {
+		for site, n := range hook.Sites() {
+			res.Count("hook:"+site, n)
+		}
+		hook.Configure(0)
+	}()
 	in, err := run.Open(sqlOf(c))
 	if err != nil {
 		res.Add(pbt.D("execute-error", "%v for %s", err, sqlOf(c)))
@@ -268,13 +278,13 @@ func runCase(c Case) pbt.Result {
 func trim(c Case) any { return c }
 
 var spec = pbt.Spec[Case]{
-	ID:   "C01",
-	Rule: "generated: event-time tumbling windows (size 100ms..90s, MAXOUTOFORDERNESS 0..2*size, 0-4 groups, TIMEUNIT ms/ss, ts as int/int64/float64), 1-40 events from a model clock (duplicate ts, boundary and boundary-1 ts, jumps up to 20 windows) pulled back by jitter in [0,2*OOO], producer pauses, final flush row; plus a share of processing-time cases run in real time. oracle: arrival/watermark model + per-row invariants (alignment, window_id, ids in own group and interval, count/sum over exactly those ids, no id twice, no interval twice, every not-late-on-arrival id exactly once in its interval, no early firing). non-trivial = >=2 intervals delivered and at least one of {late row, out-of-order row, boundary ts, duplicate ts, on-time row before the first window}; distinct by case hash",
+	ID:          "C01",
+	Rule:        "generated: event-time tumbling windows (size 100ms..90s, MAXOUTOFORDERNESS 0..2*size, 0-4 groups, TIMEUNIT ms/ss, ts as int/int64/float64), 1-40 events from a model clock (duplicate ts, boundary and boundary-1 ts, jumps up to 20 windows) pulled back by jitter in [0,2*OOO], producer pauses, final flush row; plus a share of processing-time cases run in real time. oracle: arrival/watermark model + per-row invariants (alignment, window_id, ids in own group and interval, count/sum over exactly those ids, no id twice, no interval twice, every not-late-on-arrival id exactly once in its interval, no early firing). non-trivial = >=2 intervals delivered and at least one of {late row, out-of-order row, boundary ts, duplicate ts, on-time row before the first window}; distinct by case hash",
 	Assumptions: []string{"input never dropped: WithOverflowStrategy(block,0)", "rows late on arrival may be counted or not (property leaves it open)", "a missing delivery after a 4 s wait on a ~150 µs path is a loss, not slowness", "processing-time cases use range oracles on wall-clock brackets"},
-	Gen:      genCase,
-	Run:      runCase,
-	Features: features,
-	Trim:     trim,
+	Gen:         genCase,
+	Run:         runCase,
+	Features:    features,
+	Trim:        trim,
 }
 
 func TestProp(t *testing.T)    { pbt.RunProp(t, spec) }
@@ -282,3 +292,11 @@ func TestReplay(t *testing.T)  { pbt.RunReplay(t, spec) }
 func TestWitness(t *testing.T) { pbt.RunWitnesses(t, spec) }
 
 var _ = sort.Ints
+
+// hookSeed: two cases in three run with schedule perturbation at the engine's verif-tagged points.
+func hookSeed(t *rapid.T) uint64 {
+	if rapid.IntRange(0, 2).Draw(t, "hookon") == 0 {
+		return 0
+	}
+	return uint64(rapid.IntRange(1, 1<<30).Draw(t, "hookseed"))
+}
